@@ -438,6 +438,11 @@ impl MqttState {
 
     fn handle_incoming_pubcomp(&mut self, pubcomp: &PubComp) -> Result<Option<Packet>, StateError> {
         let outgoing = self.check_collision(pubcomp.pkid).map(|publish| {
+            // the released publish is in flight from now on: it has to be acknowledged and,
+            // if the connection breaks first, retransmitted
+            self.outgoing_pub[publish.pkid as usize] = Some(publish.clone());
+            self.inflight += 1;
+
             let pkid = publish.pkid;
             let event = Event::Outgoing(Outgoing::Publish(pkid));
             self.events.push_back(event);
